@@ -178,7 +178,7 @@ func run(c *core.Ctx) {
 	c.Assume("the argument menu contains the value dsl.ResultType really returns after reporting an error (obtained by calling it with too many arguments at the point of use): a design that keeps using `var RT = ResultType(...)` of a broken definition")
 	c.Assume("dangling-reference clause: the family's programs refer to the name zzq, which no menu contains, so they never define it; acceptance is a violation by itself when no call of the program can replace the referring construct (template alone, or list-appending constructs); otherwise an accepted design 'still refers' to it when a string reachable from expr.Root / expr.GeneratedResultTypes through goa's own struct types contains it (third-party data such as the example generator's word lists is skipped)")
 	c.Assume("View(name) on an attribute / result selects the single view it is rendered with: a later View(other) in the same DSL replaces the selection, so of the values goa keeps under the meta key \"view\" only the last one is a reference")
-	c.Assume("requirement / credential clause: a requirement is unmet when a scheme it names needs a credential attribute (basic: Username and Password; apikey: APIKey for that scheme name; jwt: Token; oauth2: AccessToken) that the program did not put in the payload (directly, through Extend, or through the overriding DSL of Payload(Type, dsl)); with two Security calls every one of them must be met; nothing is asserted about credentials no requirement uses")
+	c.Assume("requirement / credential clause: a requirement is unmet when a scheme it names needs a credential attribute (basic: Username and Password; apikey: APIKey for that scheme name; jwt: Token; oauth2: AccessToken) that the program did not put in the payload (directly or through Extend); with two Security calls every one of them must be met; nothing is asserted about credentials no requirement uses")
 	c.Assume("a DSL call without variadic arguments passes a nil slice, as compiled Go code does (reflect.Value.CallSlice with a nil slice), so that `if args == nil` branches of the DSL behave as in a real design")
 	c.Assume("kind dimension: where the type a mapping refers into has no attributes (primitive, alias of a primitive, array, map, collection) a name maps the whole value and is not an attribute reference: those variants are judged by the crash / located-error clauses only; the control programs (dangling name replaced by an existing one) likewise")
 	c.Assume("the worker reaches goa's unexported expr.validated through go:linkname (no overlay); a rename in goa makes the worker fail to link, which is reported as a harness error")
@@ -236,7 +236,7 @@ func run(c *core.Ctx) {
 	bounds := "depth 1: complete product (quick menus: two-value variadic tails over the 6 most common values); depth 2: all ordered pairs per context over {first accepted, first ill-typed} vectors; dangling references (every position of name lists) alone and with one accepted companion call before/after, each followed at level 1 by its control programs (the dangling name replaced by every existing name); kind of the type referred into (dkind): every template in the variants of its scaffold, level 1 = the referred type over its whole kind menu x the other types of the scaffold over {base, user type, result type}, level 2 (one companion) = one type at a time over its whole kind menu; requirement / credential family (cred): transport {HTTP, gRPC, none} x level {method, service, API} x requirement shape over the schemes {basic, apikey k1, apikey k2, jwt, oauth2} (one scheme, every ordered pair in one Security call, every ordered pair as two Security calls: 45) x payload kind {inline object, user type, result type, type with inherited credentials; no payload, primitive payload} x every subset of the 6 credential attributes (64); self-recursive types with bodies of 1..2 calls, and extended / referenced from a second type, payload or result with and without same-named attributes"
 	if c.Thorough() {
 		fams = []string{"dangling1", "dkind1", "cred", "rec1", "recref1", "dangling2", "dkind2", "rec2", "recref2", "d2", "d3", "dangling3", "dkind3"}
-		bounds = "depth 1: complete product of the full menus; depth 2: all ordered pairs per context over one vector per distinct depth-1 outcome class (max 8) plus {first accepted, first ill-typed}; depth 3: all ordered triples of the calls goa accepts in every context (in the 8 relevant contexts also of their ill-typed variants); dangling references alone (with controls), with one and with two accepted companion calls in every position; kind of the type referred into (dkind): level 1 = full product of the kind menus of payload, result and error type, level 2 = the referred type over its whole menu x the others over {base, user type, result type}, level 3 = one type at a time over its object-like kinds; requirement / credential family (cred): as quick plus the payload kinds {inline object / result type extending a type that holds the credentials, object with a Reference, type + overriding DSL adding the credentials, alias of a user type}; self-recursive and mutually recursive type pairs, also extended / referenced from a second type, payload or result"
+		bounds = "depth 1: complete product of the full menus; depth 2: all ordered pairs per context over one vector per distinct depth-1 outcome class (max 8) plus {first accepted, first ill-typed}; depth 3: all ordered triples of the calls goa accepts in every context (in the 8 relevant contexts also of their ill-typed variants); dangling references alone (with controls), with one and with two accepted companion calls in every position; kind of the type referred into (dkind): level 1 = full product of the kind menus of payload, result and error type, level 2 = the referred type over its whole menu x the others over {base, user type, result type}, level 3 = one type at a time over its object-like kinds; requirement / credential family (cred): as quick plus the payload kinds {inline object / result type extending a type that holds the credentials, object with a Reference, user type + overriding DSL, alias of a user type}; self-recursive and mutually recursive type pairs, also extended / referenced from a second type, payload or result"
 	}
 	c.Note("bounds", bounds)
 	for _, f := range fams {
